@@ -22,7 +22,7 @@ def run(s):
     K.pair_histories(s, text='hostile')
     q = s.tier == 'quick'
     w = K.kind_weights(1, 1, 1.0, 0.04)
-    n = 240 if q else 8000
+    n = 240 if q else 20000
     for h in range(n):
         if not s.mine(h):
             continue
